@@ -1008,14 +1008,12 @@ class ByConstituency:
                 votes = votelib.convert.SubsettedVotes(self.subsetter).convert(
                     votes, preselected
                 )
+            kwargs = {}
             if accepts_prev_gains(self.evaluator):
-                return self.evaluator.evaluate(
-                    votes, n_seats,
-                    prev_gains=prev_gains,
-                    max_seats=max_seats,
-                )
-            else:
-                return self.evaluator.evaluate(votes, n_seats)
+                kwargs['prev_gains'] = prev_gains
+            if accepts_max_seats(self.evaluator):
+                kwargs['max_seats'] = max_seats
+            return self.evaluator.evaluate(votes, n_seats, **kwargs)
 
     def _preselect(self, votes, n_seats):
         if self.preselector:
@@ -1159,9 +1157,12 @@ class ByParty:
         :returns: Results of the evaluation by constituency.
         """
         overall_votes = votelib.convert.VoteTotals().convert(votes)
-        overall_result = self.overall_evaluator.evaluate(
-            overall_votes, n_seats
-        )
+        if accepts_seats(self.overall_evaluator):
+            overall_result = self.overall_evaluator.evaluate(
+                overall_votes, n_seats
+            )
+        else:
+            overall_result = self.overall_evaluator.evaluate(overall_votes)
         allocator = self.allocator
         if allocator is None:
             allocator = self.overall_evaluator
@@ -1318,19 +1319,36 @@ def accepts_seats(evaluator: Evaluator) -> bool:
         return evaluator.accepts_seats
     else:
         params = inspect.signature(evaluator.evaluate).parameters
-        return 'n_seats' in params or _has_generic(params)
+        if 'n_seats' in params:
+            return True
+        elif _has_generic(params):
+            # a wrapper passing its arguments through: ask the wrapped evaluator
+            for attr in ('evaluator', 'main'):
+                if hasattr(evaluator, attr):
+                    return accepts_seats(getattr(evaluator, attr))
+            return True
+        return False
 
 
 def accepts_prev_gains(evaluator: Evaluator) -> bool:
     """Whether evaluator takes previous gains as an argument to evaluate()."""
+    return _accepts_keyword(evaluator, 'prev_gains')
+
+
+def accepts_max_seats(evaluator: Evaluator) -> bool:
+    """Whether evaluator takes maximum seats as an argument to evaluate()."""
+    return _accepts_keyword(evaluator, 'max_seats')
+
+
+def _accepts_keyword(evaluator: Evaluator, name: str) -> bool:
     params = inspect.signature(evaluator.evaluate).parameters
-    if 'prev_gains' in params:
+    if name in params:
         return True
     elif _has_generic(params):
         # a wrapper passing its arguments through: ask the wrapped evaluator
-        for attr in ('evaluator', 'main'):
+        for attr in ('evaluator', 'main', 'party_eval'):
             if hasattr(evaluator, attr):
-                return accepts_prev_gains(getattr(evaluator, attr))
+                return _accepts_keyword(getattr(evaluator, attr), name)
     return False
 
 
